@@ -375,7 +375,12 @@ def gen_plan(seed, prop, faults, nested=False):
                            'u': rng.random()}
             if rng.random() < 0.5:
                 op['fault']['in'] = rng.choice(HOT)
-        elif cfg['nested'] and rng.random() < cfg['nest_rate']:
+        elif cfg['nested'] and rng.random() < cfg['nest_rate'] and \
+                not formulas[op['q']['f']].get('deep'):
+            # (not inside a call on a deep formula: the nested call would run
+            # with the stack almost exhausted and raise RecursionError for
+            # that reason alone - an artefact of nesting, seen as 8
+            # EXTENSION-FINDING lines in 21 000 runs of the unchanged tree)
             # a complete second call runs at a line event inside this one
             if calls and rng.random() < 0.5:
                 q2 = dict(ops[rng.choice(calls)]['q'])
